@@ -67,7 +67,7 @@ def derivative_monitors(run):
         S = 1.0 + float(max(np.max(np.abs(np.asarray(a)[:B.DIM[kind]])), np.max(np.abs(np.asarray(b)[:B.DIM[kind]]))))
         pt = np.array([mag() for _ in range(B.DIM[kind])])
         S = max(S, float(np.max(np.abs(pt))))
-        tol = 2e-6 * S
+        tol = 2e-9 * S          # (measured on the unchanged tree: deviation/S <= 2e-11 over 42 000 comparisons)
         checks = [
             ('jacobian_self_oplus_other_wrt_self', lambda x: x + b, a, a.jacobian_self_oplus_other_wrt_self(b) @ a.jacobian_boxplus()),
             ('jacobian_self_oplus_other_wrt_other', lambda x: a + x, b, a.jacobian_self_oplus_other_wrt_other(b) @ b.jacobian_boxplus()),
